@@ -242,6 +242,153 @@ package tss
 //@   ensures result1 != nil ==> isnil(result0)
 //@   ensures [C08.parsed-message-carries-transport-facts] result1 == nil ==> (istype(result0, "*tss.MessageImpl") && cast(result0, "*tss.MessageImpl").MessageRouting.From == from && cast(result0, "*tss.MessageImpl").MessageRouting.IsBroadcast == isBroadcast && cast(result0, "*tss.MessageImpl").wire != nil && cast(result0, "*tss.MessageImpl").wire.IsBroadcast == isBroadcast && !isnil(cast(result0, "*tss.MessageImpl").content))
 
+// ----- party.go: the party engine -----
+// Ghost state (prelude/macros.spec): plocked(p) the party mutex is held by the
+// current call; curround(p) the party's current round; proceedok(r) the last
+// answer of r.CanProceed(); rstarted(r) r.Start() has run.
+// E1 validate before lock, store under lock; E2 Update only on a non-nil round;
+// E3 advance only if CanProceed(); E4 Start of the new round in the same
+// critical section, unlock exactly once on every path, recursion after unlock.
+
+//@ func (Party).lock
+//@   requires [C09.not-reentrant] !plocked(self)
+//@   modifies plocked(self)
+//@   ensures plocked(self)
+//@ func (Party).unlock
+//@   requires [C09.unlock-only-when-locked] plocked(self)
+//@   modifies plocked(self)
+//@   ensures !plocked(self)
+//@ func (Party).round
+//@   requires [C09.round-read-under-lock] plocked(self)
+//@   ensures result == curround(self)
+//@ func (Party).advance
+//@   requires [C09.advance-under-lock] plocked(self)
+//@   requires [C08.E3-advance-only-if-can-proceed] !isnil(curround(self)) && proceedok(curround(self))
+//@   modifies curround(self)
+//@   ensures isnil(curround(self)) || !rstarted(curround(self))
+//@ func (Party).setRound
+//@   requires [C09.set-round-under-lock] plocked(self)
+//@   modifies curround(self)
+//@   ensures result == nil ==> curround(self) == arg0
+//@   ensures result != nil ==> curround(self) == old(curround(self))
+//@ func (Party).FirstRound
+//@   ensures !isnil(result) && !rstarted(result)
+//@ func (Party).StoreMessage
+//@   requires [C08.E1-store-under-lock] plocked(self)
+//@ func (Party).ValidateMessage
+//@   requires !isnil(msg) ==> (msgfrom(msg) != nil ==> msgfrom(msg).MessageWrapper_PartyID != nil)
+//@   ensures [C06.valid-message-shape] result1 == nil ==> (!isnil(msg) && !isnil(msgcontent(msg)) && msgfrom(msg) != nil && msgvalid(msg))
+//@ func (Party).PartyID
+//@   ensures result != nil ==> result.MessageWrapper_PartyID != nil
+//@ func (Party).WrapError
+//@   ensures result != nil
+//@ func (Party).String
+//@   pure
+
+//@ func (Round).Params
+//@   ensures result != nil
+//@ func (Round).RoundNumber
+//@   pure
+//@ func (Round).Update
+//@   pure
+//@ func (Round).CanProceed
+//@   modifies proceedok(self)
+//@   ensures proceedok(self) == result
+//@ func (Round).Start
+//@   requires [C08.E4-start-once-per-round] !rstarted(self)
+//@   modifies rstarted(self)
+//@   ensures rstarted(self)
+//@ func (Round).NextRound
+//@   pure
+//@ func (Round).WaitingFor
+//@   pure
+//@ func (Round).WrapError
+//@   ensures result != nil
+//@ func (Round).CanAccept
+//@   pure
+
+//@ func dyn:func(tss.Round)*tss.Error
+//@   note the optional prepare function handed to BaseStart by a LocalParty (signing: (*round1).prepare)
+//@   pure
+
+//@ func BaseUpdate$1
+//@   props C08 C09
+//@   requires !isnil(p) && plocked(p)
+//@   modifies plocked(p)
+//@   ensures !plocked(p) && result0 == ok && result1 == err
+
+//@ func BaseUpdate
+//@   props C08 C09 C06 C04
+//@   requires !isnil(p)
+//@   requires [sender-id-wellformed] !isnil(msg) ==> (msgfrom(msg) != nil ==> msgfrom(msg).MessageWrapper_PartyID != nil)
+//@   requires [C09.not-reentrant] !plocked(p)
+//@   modifies plocked(p), curround(p), allghost("proceedok"), allghost("rstarted")
+//@   ensures [C09.unlocked-on-every-return] !plocked(p)
+
+//@ func BaseStart$1
+//@   props C09
+//@   requires !isnil(p) && plocked(p) && !isnil(curround(p))
+
+//@ func BaseStart
+//@   props C08 C09 C06
+//@   requires !isnil(p)
+//@   requires [C09.not-reentrant] !plocked(p)
+//@   modifies plocked(p), curround(p), allghost("proceedok"), allghost("rstarted")
+//@   ensures [C09.unlocked-on-every-return] !plocked(p)
+//@   ensures [C08.refuses-second-start] !isnil(old(curround(p))) ==> result != nil
+
+// ----- BaseParty -----
+
+//@ func (*BaseParty).lock
+//@   props C09
+//@   requires p != nil
+//@   requires !held(p.mtx)
+//@   modifies held(p.mtx)
+//@   ensures held(p.mtx)
+//@ func (*BaseParty).unlock
+//@   props C09
+//@   requires p != nil
+//@   requires held(p.mtx)
+//@   modifies held(p.mtx)
+//@   ensures !held(p.mtx)
+//@ func (*BaseParty).round
+//@   props C09
+//@   requires p != nil
+//@   requires [C09.round-read-under-lock] held(p.mtx)
+//@   ensures result == p.rnd
+//@ func (*BaseParty).advance
+//@   props C09 C08
+//@   requires p != nil && !isnil(p.rnd)
+//@   requires [C09.advance-under-lock] held(p.mtx)
+//@   modifies p.rnd
+//@ func (*BaseParty).setRound
+//@   props C09 C08
+//@   requires p != nil
+//@   requires [C09.set-round-under-lock] held(p.mtx)
+//@   modifies p.rnd
+//@   ensures [C08.refuses-second-round] (result == nil) <==> isnil(old(p.rnd))
+//@   ensures result == nil ==> p.rnd == round
+//@ func (*BaseParty).WaitingFor
+//@   props C09 C08
+//@   requires p != nil && !held(p.mtx)
+//@   modifies held(p.mtx)
+//@   ensures !held(p.mtx)
+//@ func (*BaseParty).WrapError
+//@   props C09 C05
+//@   requires p != nil
+//@   requires [C09.round-read-under-lock] held(p.mtx)
+//@   ensures result != nil
+//@ func (*BaseParty).Running
+//@   props C09
+//@   requires p != nil
+//@   requires [C09.round-read-under-lock] held(p.mtx)
+//@ func (*BaseParty).ValidateMessage
+//@   props C09 C06
+//@   requires p != nil
+//@   requires [sender-id-wellformed] !isnil(msg) ==> (msgfrom(msg) != nil ==> msgfrom(msg).MessageWrapper_PartyID != nil)
+//@   ensures result1 != nil ==> !result0
+//@   ensures [C06.valid-message-shape] result1 == nil ==> (result0 && !isnil(msg) && !isnil(msgcontent(msg)) && msgfrom(msg) != nil && msgvalid(msg))
+
 //@ func parseWrappedMessage
 //@   props C08 C06
 //@   requires wire != nil
